@@ -28,6 +28,7 @@ import OxiddModel.NnfParse.DriverRt
 import OxiddModel.NnfParse.Driver
 import OxiddModel.DimacsParse.Driver
 import OxiddModel.Zbdd.DriverRc
+import OxiddModel.Bcdd.DriverC04S
 
 open OxiddModel
 
@@ -71,7 +72,10 @@ def protos : List (String × Proto) := [
   ("dimacsparse-before-fix", OxiddModel.DimacsParse.protoBeforeFix),
   ("dimacsparse-noskip", OxiddModel.DimacsParse.protoNoSkip),
   ("dimacsparse-before-cofix", OxiddModel.DimacsParse.proto),
-  ("zbdd-rc", OxiddModel.Zbdd.DriverRc.proto)
+  ("zbdd-rc", OxiddModel.Zbdd.DriverRc.proto),
+  ("bcdd-c04s", OxiddModel.Bcdd.DriverC04S.proto),
+  ("bcdd-c04s-1", OxiddModel.Bcdd.DriverC04S.proto1),
+  ("bcdd-c04s-4", OxiddModel.Bcdd.DriverC04S.proto4)
 ]
 
 def main (args : List String) : IO UInt32 := do
